@@ -7,6 +7,10 @@ props = [json.loads(l)["id"] for l in open(os.path.join(V, "properties.jsonl"))]
 
 # id -> (category, technique, text, note, design_ref)
 claimed = {
+ "C02": ("fault_enumeration", "self-differential monitoring over crash images: data-directory images taken at failpoints between the file operations of every logged write (plus torn and power-loss images derived from them) are restored into fresh instances and compared with dumps recorded from the live instance",
+         "For seeded write workloads over all six value types, databases {0,1,3,12}, TCP and embedded callers and the three sync policies: an image at EVERY hit of EVERY failpoint of the write path and after every acknowledgement; from each record-write image the log cut at every byte offset of the record (torn), and from each acknowledgement image the log cut back to its last fsync (power loss); each image is restored and its whole canonical dump must be the recorded prefix state the statement allows; recovered directories are written to again, stopped cleanly and restarted (durable-again histories).",
+         "Process death is modelled by a directory image taken inside the failpoint (what another process can read at that instant is what SIGKILL leaves); power loss by cutting the log back to the size at the last fsync; device-level reordering inside a synced region is out of reach. The oracle is self-differential (dump vs dump) and does not depend on any command's semantics. Commands matching listed findings C02-KF1/KF2 are excluded from workloads and replayed by a witness lane.",
+         "DESIGN.md §3 C02"),
  "C01": ("exploration", "lock-step differential monitoring of the real handlers against an executable reference typed map (replies + whole-store dump after every step)",
          "Every sequence of depth <=2 (thorough: <=3) over an 80-command alphabet from 8 initial states, plus seeded random programs of 40-80 steps over binary/numeric/huge values, run on fresh instances; each step's strict-parsed reply must be allowed by the reference model and the side-effect-free dump of the store must equal the model state. Held on what was explored, not a proof.",
          "Trusts the verif-tagged dump (reads the store under its own lock), the injected virtual clock, and the reference model in harness/model (set-valued where statement and docs are silent). Inputs matching a listed known finding are filtered out of exploration and replayed by a witness lane.",
